@@ -407,6 +407,28 @@ def run(ctx):
             ctx.ok('R-MASKKEEP', 'mask_vals template', w6, text5)
     ctx.floor('operator handlers', sum(1 for o in ctx.obligations if o['rule'] == 'R-OPTABLE'), 17)
     ctx.floor('mask predicates', sum(1 for o in ctx.obligations if o['rule'] == 'R-MASKTABLE'), 8)
+    # ---------------- R-EVALASSIGN: every name the expression assigns becomes a variable of the result, also a re-assigned input
+    ctx.rule('R-EVALASSIGN', 'eval: the names stored are all assigned names found in the namespace after exec (no filter on names that existed before)')
+    evf = ctx.src.mod(FILES).func('PseudoNetCDFFile.eval')
+    wev = 'src/PseudoNetCDF/%s PseudoNetCDFFile.eval' % FILES
+    ak = [st for st in iter_stmts(evf.body) if isinstance(st, ast.Assign) and norm(st.targets[0]) == 'assignedkeys']
+    if not ak:
+        ctx.undec('R-EVALASSIGN', 'assignedkeys', wev, 'assignedkeys not found')
+    else:
+        extra = None
+        for st in ak:
+            for comp in [n for n in ast.walk(st.value) if isinstance(n, ast.comprehension)]:
+                for cond in comp.ifs:
+                    for part in (cond.values if isinstance(cond, ast.BoolOp) and isinstance(cond.op, ast.And) else [cond]):
+                        t = norm(part)
+                        if t in ('k in vardict', 's.is_assigned()', 'k in vardict.keys()'):
+                            continue
+                        extra = (st, t)
+        if extra:
+            ctx.violation(Finding('R-EVALASSIGN', FILES, 'PseudoNetCDFFile.eval', extra[0], 'assigned names are additionally filtered by `%s`: an expression that re-assigns an existing variable (A = A * 1000.) is evaluated and '
+                                  'its result thrown away' % extra[1]))
+        else:
+            ctx.ok('R-EVALASSIGN', 'assignedkeys', wev, '%d definitions, filtered only by presence in the namespace' % len(ak))
     # ---------------- R-COORDKEYS: a copy (also a structure-only one) keeps the receiver's coordinate keys
     ctx.rule('R-COORDKEYS', '_copywith hands the coordinate keys to the copy on every path, whether or not variables are copied (pncbo and mask fill the copy afterwards)')
     cw = ctx.src.mod(FILES).func('PseudoNetCDFFile._copywith')
